@@ -519,13 +519,79 @@ mod part_b {
                         ("ptr_guard_mut+ptr_guard held".into(), vec![(off, len)])
                     }
                     _ => {
-                        // derivations: subslice / offset / split keep the mapping info
+                        // every derivation / conversion keeps the mapping info: the accessor that
+                        // comes out of it still maps what it touches
                         let o2 = r.usize_below(len + 1);
-                        if let Ok(sub) = s.offset(o2) {
+                        let which = r.below(9);
+                        let name = ["offset", "subslice", "split_at.1", "split_at.0", "ArrayRef::from(slice)", "get_array_ref<u8>.to_slice", "get_ref<[u8;8]>.to_slice", "get_array_ref<u16>.ref_at.to_slice", "ArrayRef::from(slice).ref_at"][which as usize];
+                        // (derived accessor, offset of its first byte within the region)
+                        let derived: Option<(VolatileSlice<BS<()>>, usize)> = match which {
+                            0 => s.offset(o2).ok().map(|d| (d, off + o2)),
+                            1 => s.subslice(o2, len - o2).ok().map(|d| (d, off + o2)),
+                            2 => s.split_at(o2).ok().map(|(_, b)| (b, off + o2)),
+                            3 => s.split_at(o2).ok().map(|(a, _)| (a, off)),
+                            4 => {
+                                // use the element array itself, then go back to a slice
+                                let arr: vm_memory::VolatileArrayRef<u8, BS<()>> = s.offset(o2).unwrap().into();
+                                let l2 = arr.len().min(40);
+                                if l2 > 0 {
+                                    arr.copy_from(&data[..l2]);
+                                    rig.model[off + o2..off + o2 + l2].copy_from_slice(&data[..l2]);
+                                    let mut back = vec![0u8; l2];
+                                    if arr.copy_to(&mut back) != l2 || back[..] != data[..l2] {
+                                        v(&format!("{:?}/array-from-slice.copy_from-copy_to/data", rig.kind), jobj! {"off" => off + o2});
+                                    }
+                                    let x = arr.load(l2 - 1);
+                                    arr.store(l2 - 1, x);
+                                }
+                                Some((arr.to_slice(), off + o2))
+                            }
+                            5 => s.get_array_ref::<u8>(o2, len - o2).ok().map(|a| (a.to_slice(), off + o2)),
+                            6 => {
+                                if len - o2 >= 8 {
+                                    s.get_ref::<[u8; 8]>(o2).ok().map(|rf| (rf.to_slice(), off + o2))
+                                } else {
+                                    None
+                                }
+                            }
+                            7 => {
+                                let n = (len - o2) / 2;
+                                if n > 0 {
+                                    let i = r.usize_below(n);
+                                    s.get_array_ref::<u16>(o2, n).ok().map(|a| (a.ref_at(i).to_slice(), off + o2 + 2 * i))
+                                } else {
+                                    None
+                                }
+                            }
+                            _ => {
+                                let arr: vm_memory::VolatileArrayRef<u8, BS<()>> = s.offset(o2).unwrap().into();
+                                if arr.len() > 0 {
+                                    let i = r.usize_below(arr.len());
+                                    Some((arr.ref_at(i).to_slice(), off + o2 + i))
+                                } else {
+                                    None
+                                }
+                            }
+                        };
+                        if let Some((sub, at)) = derived {
                             let l2 = sub.len().min(40);
                             let k = sub.write(&data[..l2], 0).unwrap_or(0);
-                            rig.model[off + o2..off + o2 + k].copy_from_slice(&data[..k]);
-                            return ("slice.offset.write".into(), vec![(off + o2, k)]);
+                            rig.model[at..at + k].copy_from_slice(&data[..k]);
+                            let mut back = vec![0u8; k];
+                            if sub.read(&mut back, 0).unwrap_or(0) != k || back[..] != data[..k] {
+                                v(&format!("{:?}/derived-{}.write-read/data", rig.kind, name), jobj! {"at" => at, "len" => k});
+                            }
+                            // the derived accessor's own guard maps (and later unmaps) its bytes
+                            {
+                                let g = sub.ptr_guard();
+                                if g.len() != sub.len() {
+                                    v(&format!("{:?}/derived-{}/guard-len", rig.kind, name), jobj! {"got" => g.len(), "want" => sub.len()});
+                                }
+                                if k > 0 && unsafe { g.as_ptr().read_volatile() } != data[0] {
+                                    v(&format!("{:?}/derived-{}/guard-does-not-point-at-first-byte", rig.kind, name), jobj! {"at" => at});
+                                }
+                            }
+                            return (format!("derived-{}.write+read+guard", name), vec![(at, k)]);
                         }
                         ("skip".into(), vec![])
                     }
